@@ -113,12 +113,14 @@ type gen struct {
 	// counters filled while generating (probes)
 	overwrites, straddles, restores, restoresBelow, multi int
 	removedOne                                            bool
+	dead                                                  map[raftio.NodeInfo]bool
 	noWipeShared                                          bool // never wipe a replica whose Tan db is shared
 	imports                                               int
 }
 
 func newGen(src *choice.Source, model *RefStore, pairs []raftio.NodeInfo, big int, batchy bool) *gen {
-	g := &gen{src: src, model: model, pairs: pairs, gs: map[raftio.NodeInfo]*genState{}, big: big, batchy: batchy}
+	g := &gen{src: src, model: model, pairs: pairs, gs: map[raftio.NodeInfo]*genState{}, big: big, batchy: batchy,
+		dead: map[raftio.NodeInfo]bool{}}
 	for _, p := range pairs {
 		g.gs[p] = &genState{term: 1}
 	}
@@ -351,7 +353,7 @@ func (g *gen) update(id raftio.NodeInfo) pb.Update {
 }
 
 // live reports whether the replica may be written to.
-func (g *gen) live(id raftio.NodeInfo) bool { return !g.model.Get(id).Removed }
+func (g *gen) live(id raftio.NodeInfo) bool { return !g.dead[id] && !g.model.Get(id).Removed }
 
 func (g *gen) pick(filter func(raftio.NodeInfo) bool) (raftio.NodeInfo, bool) {
 	var c []raftio.NodeInfo
@@ -501,6 +503,7 @@ func (g *gen) next(havePending bool, allowReopen bool) wop {
 		id, _ := g.pick(canWipe)
 		op.id = id
 		g.removedOne = true
+		g.dead[id] = true
 	case opObsolete:
 		op.run = !g.src.Chance(1, 4)
 	}
